@@ -40,7 +40,7 @@ CONFIG = {
     "C13": {"race": "TestC13ServerConcurrent|TestC13ServerDWA"},
     "C14": {"race": "TestC14"},
     "C15": {"race": "TestC15"},
-    "C16": {},
+    "C16": {"race": "TestC16ConcurrentAnswers"},
     "C17": {},
     "C18": {},
     "C19": {"race": "TestC19"},
@@ -323,7 +323,8 @@ def main():
         seed = 1
     cfg = CONFIG[pid]
     t0 = time.time()
-    work = os.path.join(ROOT, ".work", pid + "-" + tier)
+    # VERIF_WORKROOT: only the seeded-change evaluation sets it (several runs of one property at a time)
+    work = os.path.join(os.environ.get("VERIF_WORKROOT") or os.path.join(ROOT, ".work"), pid + "-" + tier)
     shutil.rmtree(work, ignore_errors=True)
     os.makedirs(work)
     os.makedirs(os.path.join(ROOT, "replays"), exist_ok=True)
